@@ -12,7 +12,8 @@ EXPLANATION = (
     "rounding, nothing after it). Residual: bit-level behaviour of NumPy &, |, <, where on int64/object arrays (lemmas)."
     ' Added after the third round of seeded changes: explicit overflow= keywords reach the final configuration (C20.R2 order rule), the numpy protocol hands calls to the registered function unchanged (C15.R5), and the n_int/n_word relation of _init_size holds for n_int == 0 (C06.R1).'
     ' Added after the fourth round of seeded changes: every write of codes goes through set_val, hence through wrap (C02.R1); C20.R8 objects carry only the documented attributes and no function writes module-level containers (no caches / memos that go stale).'
-    " Added after the fifth round of seeded changes: both range tests (C04.R1); C04.R7 (Config.update has no early exit, so overflow='wrap' written after raw=True is applied); C20.R8 also forbids mutable default arguments and private attributes hung on operands (x._cache, x.__dict__[...]).")
+    " Added after the fifth round of seeded changes: both range tests (C04.R1); C04.R7 (Config.update has no early exit, so overflow='wrap' written after raw=True is applied); C20.R8 also forbids mutable default arguments and private attributes hung on operands (x._cache, x.__dict__[...])."
+    ' Added after the sixth round of seeded changes: C03.R1 accepts the offset-binary spelling and reports an offset added in floating point before the integer cast; resize re-stores the value on every path, a change of signedness alone included (C10.R2); carrier switches factored into a helper (if/return ladders, *args) are normalised and counted per call site, so the product switch x.n_word + y.n_word >= 64 is decided through helpers (C19.R1).')
 ASSUMPTIONS = ["for Python ints and non-overflowing int64: x & (2^n-1) == x mod 2^n; (0<=x<2^n and x>=2^(n-1)) => x | -2^n == x - 2^n"]
 TRUSTED = ["CPython ast", "fxlint term normaliser", "lemma: NumPy elementwise bit operations"]
 
